@@ -22,6 +22,7 @@ structure Cell extends CoreCell where
   qGiven : Bool
   engine : Option Engine
   dtypeGiven : Bool
+  dtypeInt : Bool          -- the `dtype=` given is an integer type (`np.dtype(dtype).kind in "iu"`)
   countMask : Bool         -- resolved `min_count > 0` (fill_value with expected_groups, or a subset of the label axes)
   sorted : Bool            -- `_issorted` of the integer codes handed to `_choose_engine`
   hasNumbagg : Bool
@@ -34,9 +35,11 @@ structure Plan where
 deriving DecidableEq, Repr, Inhabited
 
 /-- the guards before `_validate_reindex` (engine / dtype / q) -/
-def entryGuards (k : FuncKind) (engine : Option Engine) (dtypeGiven qGiven byDask arrDask : Bool) : Res Unit :=
+def entryGuards (k : FuncKind) (engine : Option Engine) (dtypeGiven dtypeInt qGiven byDask arrDask : Bool) : Res Unit :=
   if engine = some .flox && k.isArg then .err .notImplemented
   else if engine = some .numbagg && dtypeGiven then .err .notImplemented
+  -- arg-reductions return integer positions: a non-integer `dtype=` is refused
+  else if k.isArg && dtypeGiven && !dtypeInt then .err .valueError
   else if k.needsQ && !qGiven then .err .valueError
   else if engine = some .numbagg && k.isArg && (byDask || arrDask) then .err .notImplemented
   else .ok ()
@@ -47,7 +50,7 @@ def engineOf (c : Cell) : Engine :=
   | none => chooseEngine c.fk c.countMask c.sorted c.byDask c.dtypeGiven c.hasNumbagg
 
 def validate (c : Cell) : Res Plan :=
-  (entryGuards c.fk c.engine c.dtypeGiven c.qGiven c.byDask c.arrDask).bind fun _ =>
+  (entryGuards c.fk c.engine c.dtypeGiven c.dtypeInt c.qGiven c.byDask c.arrDask).bind fun _ =>
   (core c.toCoreCell).bind fun (m, b) => .ok { method := m, blockwise := b, engine := engineOf c }
 
 /-! ### method="blockwise": the refusal of inputs whose groups span several blocks -/
